@@ -692,7 +692,7 @@ func TestVerifC11StationChild(t *testing.T) {
 	s.rm.PreshareEndpoint = share.URL
 	// the resolver: never the network. What is recorded is whether the station asked for a name at all
 	// and how long the attempt was allowed to take (the deadline of the context the dial gets)
-	var dials, worst int64
+	var dials, worst, noSource int64
 	vlibc11.NoNetworkResolver(func(rem int64) {
 		atomic.AddInt64(&dials, 1)
 		for { // the longest a single attempt may take; -1 (no deadline) beats everything
@@ -743,6 +743,13 @@ func TestVerifC11StationChild(t *testing.T) {
 					if reg == nil {
 						continue
 					}
+					if reg.RegistrationSource == nil {
+						// ingestRegistration and the statistics dereference it without a check (extracted
+						// table starSites): every registration the parser hands out must carry it
+						atomic.StoreInt64(&noSource, 1)
+						src := pb.RegistrationSource_Unspecified
+						reg.RegistrationSource = &src
+					}
 					s.rm.ingestRegistration(reg)
 					_ = reg.String()
 					if w := reg.GenerateC2SWrapper(); w != nil {
@@ -755,6 +762,9 @@ func TestVerifC11StationChild(t *testing.T) {
 			})
 			if res.Bad() {
 				fmt.Fprintf(progress, "BAD %d\t%s\t%s\n", i, res.Sig("zmq-ingest"), res.What())
+			}
+			if atomic.SwapInt64(&noSource, 0) != 0 {
+				fmt.Fprintf(progress, "BAD %d\t%s\t%s\n", i, "C11:zmq-ingest:registration-without-source", "parseRegMessage returned a registration whose RegistrationSource pointer is nil; ingestRegistration and AddRegStats dereference it unchecked")
 			}
 			c11Settle(base, known, progress, i)
 			if d := atomic.LoadInt64(&dials); d > 0 {
